@@ -388,6 +388,23 @@ fn main() {
                 }
             }
             if i % 16 == 0 {
+                // an era number the library does not know, whose low byte looks like a known one, must not
+                // be traversed as that era (the wrapper declares something else)
+                for wide in [0x0100u64 + sp.tag, 0xff00 + sp.tag, 0x0001_0000 + sp.tag, 8 + sp.tag, 0x18 + sp.tag] {
+                    let mut b = vec![0x82];
+                    pv::cbor::head(0, wide, 0, &mut b);
+                    b.extend_from_slice(&a.bytes[2..]);
+                    ctx.eval();
+                    match pv::panics::catch(|| MultiEraBlock::decode(&b).map(|x| x.era())) {
+                        Err(p) => ctx.violation(&format!("panic:MultiEraBlock::decode:{}", p.site()), &format!("decode panicked on wrapper era number {wide}: {}", p.msg), json!({"kind": "unknown-era-number", "block": hexs(&b)})),
+                        Ok(Ok(e)) => ctx.violation(
+                            &format!("era:undeclared-era-number-traversed:low-byte={}", wide & 0xff),
+                            &format!("the wrapper declares era number {wide}, which is not a known era, but the block is traversed as {e:?}"),
+                            json!({"kind": "unknown-era-number", "block": hexs(&b)}),
+                        ),
+                        Ok(Err(_)) => ctx.count("unknown_era_number_rejected"),
+                    }
+                }
                 // non-minimal wrapper tag
                 let mut b = vec![0x82, 0x18, sp.tag as u8];
                 b.extend_from_slice(&a.bytes[2..]);
@@ -406,6 +423,14 @@ fn main() {
         let mut rng = Rng::new(ctx.rng.next_u64());
         let b = gen_block(&mut rng, pool, &auxes);
         check_block(&mut ctx, &b, &format!("generated-tag{}", pool.tag));
+        // the same generated content under the Shelley / Allegra / Mary wrapper tags (the block layout is
+        // shared): era, pairing and the invalid-transaction list are read the same way
+        if pool.tag == 5 && b.len() > 2 && b[0] == 0x82 && b[1] == 0x05 && ctx.rng.chance(1, 3) {
+            let t = *ctx.rng.pick(&[2u8, 3, 4]);
+            let mut b2 = b.clone();
+            b2[1] = t;
+            check_block(&mut ctx, &b2, &format!("generated-tag5-as-tag{t}"));
+        }
     }
     ctx.finish();
 }
